@@ -1202,3 +1202,88 @@ def _(repo):
     grids.append("n_side = int(round(self.n ** (1 / self.dim)))" in src and "(self.max_pts[i] - self.min_pts[i]) / n_side" in src and "self.min_pts[i] + partials[i] * jnp.arange(n_side)" in src)
     return (f"(* {notes}; grids {grids} *)\nDefinition gen_uniform_ranges_ok : bool := {'true' if ok else 'false'}.\n"
             f"Definition gen_grid_formula_ok : bool := {'true' if all(grids) else 'false'}.")
+
+
+# =============================================================== G_numeric (C01, C02): symbolic evaluation
+import symb
+OPS_FILE = "jinns/loss/_operators.py"
+DYN_FILE = "jinns/loss/_DynamicLoss.py"
+header("G_numeric", """From Coq Require Import ZArith List.
+From JV Require Import Kit.Jx.
+Import ListNotations.
+""")
+
+
+def _ambient(has_t):
+    return (symb.Ambient("T") if has_t else None), symb.Ambient("X")
+
+
+def _op_anchor(name, fname, has_t, n_out=None, dim=None, kw=None):
+    def fn(repo):
+        ev = symb.Evaluator(repo, has_t)
+        ev.dimval = dim
+        t, x = _ambient(has_t)
+        f = find_func(ev.ops_mod, fname)
+        v = ev.call_def(f, [t, x, symb.Net(0), symb.ParamsObj({})], kw or {}, {})
+        if n_out is None:
+            return f"Definition gen_jx_{name} : jx := {symb.scal(v).coq()}."
+        return f"Definition gen_jx_{name} : list jx := [{'; '.join(symb.as_list(v, n_out))}]."
+    return fn
+
+
+for _ht in (False, True):
+    _s = "t" if _ht else "x"
+    anchor("G_numeric", f"laplacian_rev_{_s}")(_op_anchor(f"laplacian_rev_{_s}", "_laplacian_rev", _ht))
+    anchor("G_numeric", f"div_rev_{_s}")(_op_anchor(f"div_rev_{_s}", "_div_rev", _ht))
+    anchor("G_numeric", f"veclap_{_s}")(_op_anchor(f"veclap_{_s}", "_vectorial_laplacian", _ht, n_out=2, kw={"u_vec_ndim": 2}))
+    anchor("G_numeric", f"advection_{_s}")(_op_anchor(f"advection_{_s}", "_u_dot_nabla_times_u_rev", _ht, n_out=2, dim=2))
+
+
+def _class_node(mod, name):
+    return one([n for n in ast.walk(mod) if isinstance(n, ast.ClassDef) and n.name == name], "class " + name)
+
+
+def _dyn_anchor(name, cls, has_t, params, nets, n_out, attrs=None, dim=None, dict_style=False):
+    def fn(repo):
+        mod = parse(repo, DYN_FILE)
+        ev = symb.Evaluator(repo, has_t)
+        ev.dimval = dim
+        c = _class_node(mod, cls)
+        bases = [c]
+        for b in c.bases:
+            bn = ast.unparse(b)
+            try:
+                bases.append(_class_node(mod, bn))
+            except Untranslatable:
+                pass
+        merged = ast.ClassDef(name=cls, bases=[], keywords=[], body=[n for k in reversed(bases) for n in k.body], decorator_list=[])
+        # later definitions win: keep the most derived method of each name
+        seen, body = set(), []
+        for k in bases:
+            for n in k.body:
+                if isinstance(n, ast.FunctionDef) and n.name not in seen:
+                    seen.add(n.name); body.append(n)
+        merged.body = body
+        selfobj = symb.SelfObj(merged, mod, dict({"Tmax": symb.J("JTmax")}, **(attrs or {})))
+        eqf = one([n for n in body if n.name == "equation"], "equation")
+        t, x = _ambient(has_t)
+        P = symb.ParamsObj(params)
+        U = {k: symb.Net(i) for k, i in nets.items()} if dict_style else symb.Net(0)
+        args = [selfobj] + ([t] if has_t or cls == "GeneralizedLotkaVolterra" else []) + ([x] if cls != "GeneralizedLotkaVolterra" else []) + [U, P]
+        if cls == "GeneralizedLotkaVolterra":
+            args = [selfobj, symb.Ambient("T"), U, P]
+        v = ev.call_def(eqf, args, {}, {})
+        if n_out == 1:
+            return f"Definition gen_jx_{name} : jx := {symb.as_scalar(v)}."
+        return f"Definition gen_jx_{name} : list jx := [{'; '.join(symb.as_list(v, n_out))}]."
+    return fn
+
+
+anchor("G_numeric", "burgers")(_dyn_anchor("burgers", "BurgerEquation", True, {"nu": 0}, {}, 1))
+anchor("G_numeric", "fisher")(_dyn_anchor("fisher", "FisherKPP", True, {"D": 0, "r": 1, "g": 2}, {}, 1))
+anchor("G_numeric", "ou")(_dyn_anchor("ou", "OU_FPENonStatioLoss2D", True, {"alpha": 0, "mu": 1, "sigma": 2}, {}, 1))
+anchor("G_numeric", "mass")(_dyn_anchor("mass", "MassConservation2DStatio", False, {}, {"u": 0}, 1, attrs={"nn_key": "u"}, dict_style=True))
+anchor("G_numeric", "navier_stokes")(_dyn_anchor("navier_stokes", "NavierStokes2DStatio", False, {"rho": 0, "nu": 1}, {"u": 0, "p": 1}, 2,
+                                                  attrs={"u_key": "u", "p_key": "p"}, dim=2, dict_style=True))
+anchor("G_numeric", "glv2")(_dyn_anchor("glv2", "GeneralizedLotkaVolterra", True, {"growth_rate": 0, "carrying_capacity": 1, "interactions": 2},
+                                         {"m": 0, "k1": 1, "k2": 2}, 1, attrs={"key_main": "m", "keys_other": ["k1", "k2"]}, dict_style=True))
